@@ -102,7 +102,7 @@ def make_workdir(prefix='verif-tlc-'):
 
 
 def run(module, cfg_text=None, cfg=None, workdir=None, workers=None, simulate=None,
-        depth=None, seed=None, env=None, timeout=900, deadlock=None, coverage=False,
+        depth=None, seed=None, env=None, timeout=900, deadlock=None, coverage=None,
         extra_modules=None, dfs=False, heap='4g', keep=False, want_beh=True, stack=None):
     """Run TLC on `module` (name without .tla; must exist in spec/ or in extra_modules).
 
@@ -146,6 +146,8 @@ def run(module, cfg_text=None, cfg=None, workdir=None, workers=None, simulate=No
             cmd += ['-seed', str(seed)]
         if deadlock is False:
             cmd.append('-deadlock')
+        if coverage is None:
+            coverage = simulate is None      # per-action counts for every exhaustive run (vacuity control)
         if coverage:
             cmd += ['-coverage', '1']
         cmd.append(module + '.tla')
